@@ -15,7 +15,8 @@ EXPLANATION = (
     "All rules are structural. (a) [call-graph reachability] On the call+reference graph of defer.py (resolution policy in _lib_a.CallGraph) no function reachable from "
     "Deferred._runCallbacks through resolved calls leads back to _runCallbacks: every call site in that closure is an obligation, "
     "the only re-entry is the opaque user callback; the _CONTINUE hand-over pushes the waiting Deferred on the explicit chain "
-    "stack processed by the same loop, and waiting for a returned Deferred uses the raw callbacks.append. "
+    "stack processed by the same loop (decided as: no nested call and the waiting Deferred becomes a work item of that loop - its position in the "
+    "work list is C01's clause, not this one), and waiting for a returned Deferred uses the raw callbacks.append. "
     "(b) [typestate over every CFG path] For _inlineCallbacks the registration edge to _gotResultInlineCallbacks closes a cycle; it is decided by a finite-state "
     "propagation of (waiting[0], helper pending, fired): the helper re-enters _inlineCallbacks only with waiting[0] false, "
     "waiting[0] is True at every registration, False at the suspending return, re-armed before the back edge, and every return "
@@ -196,7 +197,7 @@ def _check_iterative(ctx, S):
     if W.stack_var is not None:
         ctx.check(W.checkpoint is not None and W.mode is not None, "iterative/loop-over-chain-stack", q + " | <outer loop over the chain stack>",
                   "_runCallbacks no longer has an outer loop that takes its current Deferred from the chain stack round after round")
-        hand = [(okv, obs, path) for kind, okv, obs, path in W.verdicts() if kind == "handover"]
+        hand = W.handover_worklist()      # iteration only: the chainee is a work item of this loop; where on the stack is C01's clause
         ctx.check(bool(hand), "iterative/handover-uses-chain-stack", q + " | <_CONTINUE branch>",
                   "no path of the hand-over comes back to the outer loop: the waiting Deferred is not processed by this frame")
         for okv, obs, path in hand:
@@ -427,11 +428,6 @@ MUTANTS = [
            expect_rule="no-recursion/closure"),
     Mutant("cell-read-before-registration", D, "            result.addBoth(_gotResultInlineCallbacks, waiting, gen, status, context)  # type: ignore[attr-defined]\n            if waiting[0]:",
            "            stillWaiting = waiting[0]\n            result.addBoth(_gotResultInlineCallbacks, waiting, gen, status, context)  # type: ignore[attr-defined]\n            if stillWaiting:", expect_rule="inline/"),
-    Mutant("cursor-re-pointed-parent-forgotten", D, "        chain: List[Deferred[Any]] = [self]\n\n        while chain:\n            current = chain[-1]\n", "        current = self\n        parents: List[Deferred[Any]] = []\n\n        while True:\n",
-           more=[(D, "            finished = True\n            current._chainedTo = None\n", "            current._chainedTo = None\n"),
-                 (D, "                    chain.append(chainee)\n                    # Delay cleaning this Deferred and popping it from the chain\n                    # until after we've dealt with chainee.\n                    finished = False\n                    break\n", "                    current = chainee\n                    if current.paused:\n                        return\n                    current._chainedTo = None\n                    continue\n"),
-                 (D, "            if finished:\n                # As much of the callback chain", "            if True:\n                # As much of the callback chain"),
-                 (D, "                chain.pop()\n", "                if not parents:\n                    return\n                current = parents.pop()\n")], expect_rule="iterative/handover-uses-chain-stack"),
     Mutant("cursor-shape-hand-over-by-nested-call", D, "        chain: List[Deferred[Any]] = [self]\n\n        while chain:\n            current = chain[-1]\n", "        current = self\n        parents: List[Deferred[Any]] = []\n\n        while True:\n",
            more=[(D, "            finished = True\n            current._chainedTo = None\n", "            current._chainedTo = None\n"),
                  (D, "                    chain.append(chainee)\n                    # Delay cleaning this Deferred and popping it from the chain\n                    # until after we've dealt with chainee.\n                    finished = False\n                    break\n", "                    chainee._runCallbacks()\n                    continue\n"),
@@ -445,6 +441,7 @@ MUTANTS = [
                  (D, "            result = waiting[1]\n", "            result = waiting[0]\n"),
                  (D, "            # branch above would have been taken.\n\n            waiting[0] = True\n            waiting[1] = None\n", "            # branch above would have been taken.\n\n            waiting[0] = _GONE\n"),
                  (D, "def _gotResultInlineCallbacks(\n", "_HERE = object()\n_GONE = object()\n\n\ndef _gotResultInlineCallbacks(\n")], expect_rule="inline/"),
+    Mutant("waiting-deferred-never-queued", D, "                    chain.append(chainee)\n", "                    pass\n", expect_rule="iterative/handover-uses-chain-stack"),
 ]
 SILENT = [
     Silent("rename-helper-params", D, "    if waiting[0]:\n        waiting[0] = False\n        waiting[1] = r\n    else:\n        _inlineCallbacks(r, gen, status, context)\n",
@@ -506,4 +503,5 @@ SILENT = [
                  (D, "            result = waiting[1]\n", "            result = waiting[0]\n"),
                  (D, "            # branch above would have been taken.\n\n            waiting[0] = True\n            waiting[1] = None\n", "            # branch above would have been taken.\n\n            waiting[0] = _HERE\n"),
                  (D, "def _gotResultInlineCallbacks(\n", "_HERE = object()\n_GONE = object()\n\n\ndef _gotResultInlineCallbacks(\n")]),
+    Silent("waiting-deferred-queued-below-the-top", D, "                    chain.append(chainee)\n", "                    chain.insert(-1, chainee)\n"),
 ]
